@@ -42,6 +42,10 @@ func vhOpenEnv(kind int, ctx *Context, store *MemStorage, name string) *vhEnv {
 	st := vhNewState(ctx, kind, name, store)
 	loc, err := NewLocation(ctx, name, st, nil)
 	vassume(err == nil)
+	// The real Log consults loc.Control() on every record, so a location's lazily
+	// initialised control is set while NewLocation still owns it; the Log stub does
+	// not, so the harness performs that first call here.
+	loc.Control()
 	return &vhEnv{kind: kind, ctx: ctx, store: store, state: st, loc: loc, name: name}
 }
 
